@@ -108,6 +108,7 @@ func ruleBSize(c *Ctx, r *Rep, tier string) {
 	}
 	var patches []patch
 	var base ssa.Value
+	var searchFrom int64
 	allInstrs(wb, func(ins ssa.Instruction) {
 		st, ok := ins.(*ssa.Store)
 		if !ok {
@@ -117,18 +118,47 @@ func ruleBSize(c *Ctx, r *Rep, tier string) {
 		if !ok {
 			return
 		}
-		bo, ok := ia.Index.(*ssa.BinOp)
-		if !ok || bo.Op != token.ADD {
+		// index = bytes.Index(member[L:], prefix) + L + k, however it is
+		// grouped: one Index call with coefficient 1 plus a constant; the
+		// position relative to the subfield start is that constant minus L
+		var call *ssa.Call
+		var walk func(v ssa.Value, d int)
+		walk = func(v ssa.Value, d int) {
+			if d > 6 {
+				return
+			}
+			switch x := v.(type) {
+			case *ssa.BinOp:
+				walk(x.X, d+1)
+				walk(x.Y, d+1)
+			case *ssa.Call:
+				if calleeFullName(&x.Call) == "bytes.Index" {
+					call = x
+				}
+			}
+		}
+		walk(ia.Index, 0)
+		if call == nil {
 			return
 		}
-		k, ok := constInt(bo.Y)
-		call, isCall := bo.X.(*ssa.Call)
-		if !ok || !isCall || calleeFullName(&call.Call) != "bytes.Index" {
+		p := polyOf(ia.Index, nil)
+		k := p[""]
+		if len(p) > 2 || p[symKey(call)] != 1 {
 			return
+		}
+		if sl, isSl := call.Call.Args[0].(*ssa.Slice); isSl && sl.Low != nil {
+			if lo, isK := constInt(sl.Low); isK {
+				k -= lo
+				searchFrom = lo
+			}
 		}
 		patches = append(patches, patch{st, k, call})
 		base = ia.X
 	})
+	// the search must not cover the fixed header: the four MTIME bytes can
+	// spell the subfield's prefix
+	r.Instance(rule, 1)
+	r.Check(searchFrom >= 12, rule, "bgzf.(*compressor).writeBlock#search-in-extra", c.Pos(wb.Pos()), fmt.Sprintf("the BC prefix is searched from offset %d on (the extra field begins at 12)", searchFrom), fmt.Sprintf("the BC prefix is searched from offset %d of the member: a ModTime of 42 43 02 00 is matched first and BSIZE is patched over XFL/OS", searchFrom))
 	if len(patches) != 2 {
 		r.Fail(rule, "bgzf.(*compressor).writeBlock#bsize", c.Pos(wb.Pos()), fmt.Sprintf("expected two byte stores at bytes.Index(member, prefix)+k, found %d: undecided", len(patches)))
 	} else {
@@ -201,7 +231,11 @@ func ruleBSize(c *Ctx, r *Rep, tier string) {
 					}
 				}
 				// the index call searches the member for the prefix global
-				if len(p.idx.Call.Args) != 2 || p.idx.Call.Args[0] != base {
+				searched := p.idx.Call.Args[0]
+				if sl, isSl := searched.(*ssa.Slice); isSl && sl.High == nil {
+					searched = sl.X // member[L:]
+				}
+				if len(p.idx.Call.Args) != 2 || searched != base {
 					why += " the subfield is not searched in the member being patched;"
 				}
 			}
